@@ -150,6 +150,33 @@ Fixpoint table_cond (tbl : list (N * list N * bool)) (f : N) (ps : list N) : boo
   | (f', ps', b) :: r => if N.eqb f f' && list_eqb N.eqb ps ps' then b else table_cond r f ps
   end.
 
+(* histories of the conditional domain manager *)
+Inductive cdm_op : Type :=
+| KAdd (u r d : name)
+| KDel (u r d : name)
+| KClear
+| KList (d : name)                         (* get_roles / get_users in d: creates the manager *)
+| KFn (u r d : name) (f : N)
+| KParams (u r d : name) (ps : list N).
+
+Definition cdm_step (s : cdm_state) (o : cdm_op) : cdm_state :=
+  match o with
+  | KAdd u r d => cdm_add_link s u r d
+  | KDel u r d => fst (cdm_delete_link_x s u r d)
+  | KClear => cdm_clear s
+  | KList d => cdm_put s d (cdm_get s d)
+  | KFn u r d f => cdm_add_cond s u r d f
+  | KParams u r d ps => cdm_set_params s u r d ps
+  end.
+Definition cdm_run (s : cdm_state) (ops : list cdm_op) : cdm_state := fold_left cdm_step ops s.
+Definition cdm_proj (d : name) (ops : list cdm_op) : list rm_op :=
+  flat_map (fun o => match o with
+                     | KAdd u r d' => if N.eqb d' d then [OAdd u r] else []
+                     | KDel u r d' => if N.eqb d' d then [ODel u r] else []
+                     | KClear => [OClear]
+                     | _ => []
+                     end) ops.
+
 (* ------------------------------------------------------------------------------------------ *)
 (* oracle of C03: a history of calls on one manager -> the list of observations                 *)
 (*   op codes: 0 add_link u r doms | 1 delete_link u r doms | 2 has_link a b doms              *)
